@@ -23,6 +23,16 @@ any other separator is outside what is modelled and answers `-1` -/
 def strings_Index (s sep : Bytes) : Int :=
   if sep = [47] then (match indexSlash s with | some i => (i : Int) | none => -1) else -1
 
+/-- `strings.TrimLeft(s, cutset)` for the only cutset the matcher uses, "/" (Base/Bytes.trimLeftSlash); any other cutset is
+outside what is modelled and leaves the string as it is -/
+def strings_TrimLeft (s cutset : Bytes) : Bytes := if cutset = [47] then trimLeftSlash s else s
+
+/-- `url.PathUnescape` (Base/Codec.pathUnescape, compared with the real net/url by the correspondence check on every run) -/
+def url_PathUnescape (s : Bytes) : Bytes × GoSem.Err :=
+  match pathUnescape s with
+  | some v => (v, 0)
+  | none => ([], 1)
+
 /-- the numbering of `MatchStyle` in leaf.go (iota): none 0, static 1, regex 2, placeholder 3, all 4 -/
 def styleOf : Pat → Int
   | .static _ => 1
